@@ -302,6 +302,88 @@ func genC25(g *gen) {
 	for i, k := range relNames {
 		relItems[i] = fmt.Sprintf("(%s, %d)", coqString(k), relSites[k])
 	}
+	// agent.go: the shell.Config literal that initComponents hands to shell.NewExecutor
+	af := parseFile("internal/agent/agent.go")
+	var shellWiring []string
+	shellLiterals := 0
+	if af != nil {
+		ast.Inspect(af, func(n ast.Node) bool {
+			cl, ok := n.(*ast.CompositeLit)
+			if !ok || src(cl.Type) != "shell.Config" {
+				return true
+			}
+			shellLiterals++
+			for _, el := range cl.Elts {
+				if kv, ok := el.(*ast.KeyValueExpr); ok {
+					shellWiring = append(shellWiring, fmt.Sprintf("(%s, %s)", coqString(src(kv.Key)), coqString(nospace(src(kv.Value)))))
+				}
+			}
+			return true
+		})
+	}
+	// error paths after a successful acquire in the functions that create processes:
+	// every `return nil, <error>` after the guard must directly follow exactly one
+	// ReleaseSession call in its block, and no deferred release may exist beside them
+	type errPaths struct {
+		fn                          string
+		returns, withOneRelease     int
+		deferredRelease             int
+	}
+	var eps []errPaths
+	for _, file := range parseDir("internal/shell") {
+		if strings.HasSuffix(fset.Position(file.Pos()).Filename, "_windows.go") {
+			continue
+		}
+		for _, d := range file.Decls {
+			fd, ok := d.(*ast.FuncDecl)
+			if !ok || fd.Body == nil || len(fd.Body.List) == 0 {
+				continue
+			}
+			is, ok := fd.Body.List[0].(*ast.IfStmt)
+			if !ok || is.Init == nil || !strings.Contains(nospace(src(is.Init)), ".validateAndAcquire(") {
+				continue
+			}
+			ep := errPaths{fn: recvName(fd) + "." + fd.Name.Name}
+			var walk func(stmts []ast.Stmt)
+			walk = func(stmts []ast.Stmt) {
+				for i, st := range stmts {
+					switch x := st.(type) {
+					case *ast.ReturnStmt:
+						if len(x.Results) == 2 && src(x.Results[0]) == "nil" {
+							ep.returns++
+							rel := 0
+							for _, prev := range stmts[:i] {
+								if es, ok := prev.(*ast.ExprStmt); ok && strings.HasSuffix(nospace(src(es.X)), ".ReleaseSession()") {
+									rel++
+								}
+							}
+							if rel == 1 {
+								ep.withOneRelease++
+							}
+						}
+					case *ast.IfStmt:
+						walk(x.Body.List)
+						if b, ok := x.Else.(*ast.BlockStmt); ok {
+							walk(b.List)
+						}
+					case *ast.BlockStmt:
+						walk(x.List)
+					case *ast.DeferStmt:
+						if strings.Contains(nospace(src(x)), "ReleaseSession") {
+							ep.deferredRelease++
+						}
+					}
+				}
+			}
+			walk(fd.Body.List[1:])
+			eps = append(eps, ep)
+		}
+	}
+	sort.Slice(eps, func(i, j int) bool { return eps[i].fn < eps[j].fn })
+	epItems := make([]string, len(eps))
+	for i, e := range eps {
+		epItems[i] = fmt.Sprintf("(%s, %d, %d, %d)", coqString(e.fn), e.returns, e.withOneRelease, e.deferredRelease)
+	}
 	var ws []string
 	for k := range writers {
 		ws = append(ws, k)
@@ -332,5 +414,8 @@ func genC25(g *gen) {
 	g.line("Definition gen_handler_release_sites : list (string * N) := [%s].", strings.Join(relItems, "; "))
 	g.line("Definition gen_release_guarded_by_released_flag : bool := %s.", coqBool(guardOK))
 	g.line("Definition gen_start_failure_releases_before_session_recorded : bool := %s.", coqBool(startFailBeforeRecord))
+	g.line("Definition gen_shell_config_literals : N := %d.", shellLiterals)
+	g.line("Definition gen_shell_config_wiring : list (string * string) := [%s].", strings.Join(shellWiring, "; "))
+	g.line("Definition gen_error_paths_after_acquire : list (string * N * N * N) := [%s].", strings.Join(epItems, "; "))
 	g.line("Definition gen_process_creation_sites : list (string * bool) := [%s].", strings.Join(siteItems, "; "))
 }
